@@ -342,6 +342,15 @@ def build(spec, path="r"):
     raise ValueError(spec)
 
 
+def stack_depth(spec):
+    """longest chain of nested stacking forecasters: each level holds out max(fh) points of what it is given"""
+    if spec[0] == "sf":
+        return 0
+    if spec[0] == "pipe":
+        return stack_depth(spec[2])
+    return (spec[0] == "stack") + max(stack_depth(s) for s in spec[-1])
+
+
 def has_kind(spec, kind):
     if spec[0] == kind:
         return True
@@ -372,10 +381,10 @@ def same(pred, want):
 
 def show(pred, want):
     try:
-        got = f"{list(np.round(np.asarray(pred.values, dtype=float), 4))}@{list(pred.index)}"
+        got = f"{np.round(np.asarray(pred.values, dtype=float), 4).tolist()}@{list(pred.index)}"
     except Exception:
         got = repr(pred)[:120]
-    return f"forecast {got}, composition of the parts gives {list(np.round(want[1], 4))}@{list(want[0])}"
+    return f"forecast {got}, composition of the parts gives {np.round(want[1], 4).tolist()}@{list(want[0])}"
 
 
 def entries(kind, prefix=None, exact=None):
@@ -415,12 +424,12 @@ def check_fit_log(R, spec, model, idx, v, fh, desc):
         for i in range(len(spec[1])):
             e = entries("tfit", exact=f"r.t{i}")
             R.check("pipeline-transformer-fitted-on-output-of-previous", len(e) == 1 and e[0][2] == list(idx) and np.allclose(e[0][3], model.fit_inputs[i], **TOL),
-                    f"{desc}: transformer t{i} fitted on {list(np.round(e[0][3][:4], 4)) if e else None}..., the output of the previous steps is {list(np.round(model.fit_inputs[i][:4], 4))}...")
+                    f"{desc}: transformer t{i} fitted on {np.round(e[0][3][:4], 4).tolist() if e else None}..., the output of the previous steps is {np.round(model.fit_inputs[i][:4], 4).tolist()}...")
         if leafy(spec[2]):
             fe = entries("fit", prefix="r.f")
             ok = len(fe) >= 1 and all(e[2] == list(idx) and np.allclose(e[3], model.f_fit, **TOL) for e in fe)
             R.check("pipeline-forecaster-fitted-only-on-fully-transformed-series", ok,
-                    f"{desc}: final forecaster fitted on {[list(np.round(e[3][:4], 4)) for e in fe][:2]}..., fully transformed series is {list(np.round(model.f_fit[:4], 4))}...")
+                    f"{desc}: final forecaster fitted on {[np.round(e[3][:4], 4).tolist() for e in fe][:2]}..., fully transformed series is {np.round(model.f_fit[:4], 4).tolist()}...")
     elif k == "stack":
         mf = entries("mfit", exact="r.meta")
         R.check("stacking-meta-regressor-trained-once", len(mf) == 1, f"{desc}: meta-regressor fitted {len(mf)} times during fit")
@@ -428,7 +437,7 @@ def check_fit_log(R, spec, model, idx, v, fh, desc):
         targets = [idx[n - 1 - K + int(h)] for h in fh]
         if mf:
             R.check("stacking-meta-targets-are-held-out-observations", mf[0][3].shape == (len(fh),) and np.allclose(mf[0][3], [v[n - 1 - K + int(h)] for h in fh]),
-                    f"{desc}: meta targets {list(mf[0][3])}, held-out observations at {targets} are {[v[n - 1 - K + int(h)] for h in fh]}")
+                    f"{desc}: meta targets {mf[0][3].tolist()}, held-out observations at {targets} are {[float(v[n - 1 - K + int(h)]) for h in fh]}")
             R.check("stacking-meta-features-are-held-out-member-forecasts", mf[0][2].shape == model.X_meta.shape and np.allclose(mf[0][2], model.X_meta, **TOL),
                     f"{desc}: meta features {np.round(mf[0][2], 4).tolist()}, forecasts for {targets} of members fitted before the final window {np.round(model.X_meta, 4).tolist()}")
         for i, s in enumerate(spec[-1]):
@@ -447,7 +456,7 @@ def check_fit_log(R, spec, model, idx, v, fh, desc):
                 mm.fit(first[2], first[3], None)
                 want = mm.predict([t - first[2][-1] for t in targets])[1]
                 R.check("stacking-meta-features-are-forecasts-for-the-held-out-points", np.allclose(mf[0][2][:, i], want, **TOL),
-                        f"{desc}: column {i} of the meta features {list(np.round(mf[0][2][:, i], 4))}, member m{i} (trained up to {first[2][-1]}) forecasts {list(np.round(want, 4))} for {targets}")
+                        f"{desc}: column {i} of the meta features {np.round(mf[0][2][:, i], 4).tolist()}, member m{i} (trained up to {first[2][-1]}) forecasts {np.round(want, 4).tolist()} for {targets}")
             R.check("stacking-members-refitted-on-full-series-for-forecasting", len(f) == 2 and f[-1][2] == list(idx),
                     f"{desc}: member m{i} fit calls on index ranges {[(e[2][0], e[2][-1]) for e in f]}")
 
@@ -472,7 +481,7 @@ def check_update_log(R, spec, model, nidx, nv, up, desc):
         fe = entries("fit", prefix="r.f")
         ok = len(ue) >= 1 and all(e[2] == list(nidx) and np.allclose(e[3], model.f_upd, **TOL) for e in ue)
         R.check("pipeline-forecaster-updated-only-with-fully-transformed-data", ok,
-                f"{desc}: final forecaster updated with {[list(np.round(e[3][:4], 4)) for e in ue][:2]}, fully transformed new data is {list(np.round(model.f_upd[:4], 4))} (raw {list(nv[:4])})")
+                f"{desc}: final forecaster updated with {[np.round(e[3][:4], 4).tolist() for e in ue][:2]}, fully transformed new data is {np.round(model.f_upd[:4], 4).tolist()} (raw {np.asarray(nv[:4]).tolist()})")
         R.check("pipeline-forecaster-updated-only-with-fully-transformed-data", not fe, f"{desc}: final forecaster re-fitted from scratch during update ({len(fe)} fit calls)")
 
 
@@ -485,6 +494,7 @@ def check_predict_log(R, spec, desc):
 
 def scenario(R, spec, n, l0, fh, fh_at, updates, seed=0, pre=None):
     """fit (-> optional reconfiguration + refit) -> predict -> (update -> predict)*, real composite vs model"""
+    n = max(n, stack_depth(spec) * int(max(fh)) + 4)     # every stacking level needs a non-empty series before its final window
     desc = f"spec={spec} n={n} start={l0} fh={list(fh)} fh_at={fh_at} pre={pre} updates={updates}"
     total = n + sum(u[0] for u in updates)
     y = series(total, l0, seed)
@@ -561,7 +571,7 @@ def scenario(R, spec, n, l0, fh, fh_at, updates, seed=0, pre=None):
                                 break
                             col = got.iloc[:, j].dropna()
                             ok = ok and [int(i) for i in col.index] == c[0] and np.allclose(col.values, c[1], **TOL)
-                    R.check(key + "-after-update", bool(ok), f"{d2}: moving-cutoff forecasts {np.round(np.asarray(got, dtype=float), 4).tolist()}, composition gives {[list(np.round(c[1], 4)) for c in cols]}")
+                    R.check(key + "-after-update", bool(ok), f"{d2}: moving-cutoff forecasts {np.round(np.asarray(got, dtype=float), 4).tolist()}, composition gives {[np.round(c[1], 4).tolist() for c in cols]}")
                 pos += k
     except Exception as e:   # noqa: B902  a valid composition must not fail
         R.check("valid-composition-runs", False, f"{desc}: {type(e).__name__}: {e}")
@@ -601,7 +611,7 @@ def online_case(R, nm, n, l0, fh, ks, seed=0):
             pred = obj.predict()
             ps = [m.predict(list(fh)) for m in models]
             want = (ps[0][0], (np.vstack([p[1] for p in ps]) * w[:, None]).sum(axis=0))
-            R.check(KEY["online"] + ("-after-update" if step else ""), same(pred, want), f"{desc}: after {step} updates, weights {list(np.round(w, 4))}: {show(pred, want)}")
+            R.check(KEY["online"] + ("-after-update" if step else ""), same(pred, want), f"{desc}: after {step} updates, weights {np.round(w, 4).tolist()}: {show(pred, want)}")
     except Exception as e:   # noqa: B902
         R.check("valid-composition-runs", False, f"{desc}: {type(e).__name__}: {e}")
 
@@ -680,7 +690,7 @@ def close_series(a, b):
 
 def rshow(a, b):
     try:
-        return f"forecast {list(np.round(np.asarray(a.values, dtype=float), 4))}@{list(a.index)}, composition of the parts gives {list(np.round(np.asarray(b.values, dtype=float), 4))}@{list(b.index)}"
+        return f"forecast {np.round(np.asarray(a.values, dtype=float), 4).tolist()}@{list(a.index)}, composition of the parts gives {np.round(np.asarray(b.values, dtype=float), 4).tolist()}@{list(b.index)}"
     except Exception:
         return f"forecast {a!r:.100}, composition gives {b!r:.100}"
 
@@ -719,7 +729,7 @@ def real_pipeline(R, tnames, tmakers, fname, fmaker, n, l0, fh, updates, seed):
             R.check(KEY["pipe"], close_series(got, want), f"{desc}: after fit: {rshow(got, want)}")
             seen = pipe.steps_[-1][1]._y
             R.check("pipeline-forecaster-fitted-only-on-fully-transformed-series", close_series(seen, f._y),
-                    f"{desc}: final forecaster holds {list(np.round(seen.values[:4], 4))}..., fully transformed series is {list(np.round(f._y.values[:4], 4))}...")
+                    f"{desc}: final forecaster holds {np.round(seen.values[:4], 4).tolist()}..., fully transformed series is {np.round(f._y.values[:4], 4).tolist()}...")
             pos = n
             for (k, up) in updates:
                 ynew = y.iloc[pos: pos + k]
@@ -742,7 +752,7 @@ def real_pipeline(R, tnames, tmakers, fname, fmaker, n, l0, fh, updates, seed):
                 R.check(KEY["pipe"] + "-after-update", close_series(got, want), f"{d2}: {rshow(got, want)}")
                 seen = pipe.steps_[-1][1]._y
                 R.check("pipeline-forecaster-updated-only-with-fully-transformed-data", close_series(seen.loc[ynew.index], yn),
-                        f"{d2}: final forecaster received {list(np.round(seen.loc[ynew.index].values[:4], 4))}, fully transformed new data is {list(np.round(yn.values[:4], 4))}")
+                        f"{d2}: final forecaster received {np.round(seen.loc[ynew.index].values[:4], 4).tolist()}, fully transformed new data is {np.round(yn.values[:4], 4).tolist()}")
         except Exception as e:   # noqa: B902
             R.check("valid-composition-runs", False, f"{desc}: {type(e).__name__}: {e}")
 
@@ -836,7 +846,7 @@ def real_stack(R, names, makers, n, l0, fh, updates, seed):
             mf = entries("mfit")
             R.check("stacking-meta-regressor-trained-once", len(mf) == 1, f"{desc}: meta-regressor fitted {len(mf)} times")
             if mf:
-                R.check("stacking-meta-targets-are-held-out-observations", mf[0][3].shape == ym.shape and np.allclose(mf[0][3], ym), f"{desc}: meta targets {list(mf[0][3])}, held-out observations {list(ym)}")
+                R.check("stacking-meta-targets-are-held-out-observations", mf[0][3].shape == ym.shape and np.allclose(mf[0][3], ym), f"{desc}: meta targets {mf[0][3].tolist()}, held-out observations {ym.tolist()}")
                 R.check("stacking-meta-features-are-held-out-member-forecasts", mf[0][2].shape == Xm.shape and np.allclose(mf[0][2], Xm, rtol=1e-6, atol=1e-6),
                         f"{desc}: meta features {np.round(mf[0][2], 4).tolist()}, forecasts of members fitted before the final window for the held-out points {np.round(Xm, 4).tolist()}")
             got, want = st.predict(), ref()
@@ -960,6 +970,15 @@ def reconfigurations(spec):
 
 
 def bounded(tier, seed):
+    try:        # BLAS thread pools only slow these tiny problems down
+        from threadpoolctl import threadpool_limits
+        with threadpool_limits(limits=1):
+            return _bounded(tier, seed)
+    except ImportError:
+        return _bounded(tier, seed)
+
+
+def _bounded(tier, seed):
     quick = tier == "quick"
     R = Recorder(
         "stub parts (recording forecasters a*mean+b*last+c*h, 5 invertible transformer kinds with/without update, recording "
